@@ -1185,164 +1185,164 @@ func c09CopyDeep(c *core.Ctx) {
 func c09PutCOW(c *core.Ctx) {
 	const st = "store"
 	F := func(spec string) string { return st + "." + spec }
-		a := &cow{node: c.Named(F("PatriciaNode")), tag: c.FieldVar(F("PatriciaNode"), "dye"), kids: c.FieldVar(F("PatriciaNode"), "children"),
-			fresh: []*types.Func{c.Method(F("PatriciaNode"), "Clone")}}
-		keyField := c.FieldVar(F("PatriciaNode"), "key")
-		put := c.Fn(F("PatriciaTrie.put"))
-		putObj := c.Method(F("PatriciaTrie"), "put")
-		tag := a.tagParam(put)
-		var keyParam *ssa.Parameter
-		for _, p := range put.Params {
-			if types.Identical(p.Type(), keyField.Type()) {
-				if keyParam != nil {
-					keyParam = nil
-					break
-				}
-				keyParam = p
+	a := &cow{node: c.Named(F("PatriciaNode")), tag: c.FieldVar(F("PatriciaNode"), "dye"), kids: c.FieldVar(F("PatriciaNode"), "children"),
+		fresh: []*types.Func{c.Method(F("PatriciaNode"), "Clone")}}
+	keyField := c.FieldVar(F("PatriciaNode"), "key")
+	put := c.Fn(F("PatriciaTrie.put"))
+	putObj := c.Method(F("PatriciaTrie"), "put")
+	tag := a.tagParam(put)
+	var keyParam *ssa.Parameter
+	for _, p := range put.Params {
+		if types.Identical(p.Type(), keyField.Type()) {
+			if keyParam != nil {
+				keyParam = nil
+				break
 			}
+			keyParam = p
 		}
-		if tag == nil || keyParam == nil || len(put.AnonFuncs) > 0 {
-			c.Undecided("put:shape", "cow-ownership", put.Pos(), "put must have exactly one parameter of the dye's type, one of the key's type and no closures")
-			return
+	}
+	if tag == nil || keyParam == nil || len(put.AnonFuncs) > 0 {
+		c.Undecided("put:shape", "cow-ownership", put.Pos(), "put must have exactly one parameter of the dye's type, one of the key's type and no closures")
+		return
+	}
+	unreachable := func(b *ssa.BasicBlock) bool {
+		mask, _ := lenSigns(b, keyParam, keyField)
+		return mask == 1 // only len(key) < len(child.key) remains possible
+	}
+	counts := map[string]int{}
+	uniq := func(k string) string {
+		counts[k]++
+		if counts[k] == 1 {
+			return k
 		}
-		unreachable := func(b *ssa.BasicBlock) bool {
-			mask, _ := lenSigns(b, keyParam, keyField)
-			return mask == 1 // only len(key) < len(child.key) remains possible
+		return k + "#" + string(rune('a'+counts[k]-1))
+	}
+	descAll := func(vs []ssa.Value) string {
+		var ds []string
+		for _, v := range vs {
+			ds = append(ds, a.describe(put, v))
 		}
-		counts := map[string]int{}
-		uniq := func(k string) string {
-			counts[k]++
-			if counts[k] == 1 {
-				return k
-			}
-			return k + "#" + string(rune('a'+counts[k]-1))
+		sort.Strings(ds)
+		if len(ds) == 0 {
+			return "unknown"
 		}
-		descAll := func(vs []ssa.Value) string {
-			var ds []string
-			for _, v := range vs {
-				ds = append(ds, a.describe(put, v))
-			}
-			sort.Strings(ds)
-			if len(ds) == 0 {
-				return "unknown"
-			}
-			return strings.Join(ds, "+")
-		}
-		nGuarded, nUnreach := 0, 0
-		for _, w := range a.writes(put, putObj) {
-			base := "put:" + w.Kind + "@" + descAll(w.Owners)
-			ok := !w.Unknown
-			for _, o := range w.Owners {
-				if !a.ownedAt(w.Instr.Block(), o, tag) {
-					ok = false
-				}
-			}
-			switch {
-			case ok:
-				nGuarded++
-				c.Check(uniq(base), "cow-ownership", true, w.Instr.Pos(), "write (%s) to memory of %s is dominated by the equal edge of `%s.dye == dye`", w.Kind, descAll(w.Owners), descAll(w.Owners))
-			case unreachable(w.Instr.Block()):
-				nUnreach++
-				c.CheckTrivial(uniq("put[prefix-branch]:"+w.Kind+"@"+descAll(w.Owners)), "unreachable-shape", true, w.Instr.Pos(),
-					"allow-listed: only reachable when len(key) < len(child.key), impossible while all keys of one trie have the same length (see fixed-length-keys)")
-			case w.Unknown:
-				c.Undecided(uniq(base), "cow-ownership", w.Instr.Pos(), "the origin of the written slice cannot be determined")
-			default:
-				c.Check(uniq(base), "cow-ownership", false, w.Instr.Pos(), "write (%s) to memory of %s must be dominated by the equal edge of `%s.dye == dye`", w.Kind, descAll(w.Owners), descAll(w.Owners))
-			}
-		}
-		c.Floor("put/guarded-in-place-writes", nGuarded, 8)
-		nClones := 0
-		for _, ci := range core.AllCalls(put) {
-			if v := ci.Value(); v != nil && a.isFreshCall(v) {
-				nClones++
-			}
-		}
-		c.Floor("put/clone-sites", nClones, 9)
-
-		nKidStores := 0
-		// a fresh node must not take over the children array of a node it does not own: the non-COW insert (clause 3) and the
-		// owner's guarded in-place writes shift/append inside that array (append within capacity), which the sharer would observe
-		for _, b := range put.Blocks {
-			for _, in := range b.Instrs {
-				s, ok := in.(*ssa.Store)
-				if !ok {
-					continue
-				}
-				fa, ok := s.Addr.(*ssa.FieldAddr)
-				if !ok || core.FieldOf(fa) != a.kids || !a.isNodePtr(fa.X.Type()) || len(a.nonFresh(fa.X)) > 0 {
-					continue
-				}
-				nKidStores++
-				owners, unk := a.sliceOwners(s.Val)
-				var foreign []ssa.Value
-				for _, o := range owners {
-					if !a.ownedAt(b, o, tag) {
-						foreign = append(foreign, o)
-					}
-				}
-				if len(foreign) == 0 && !unk {
-					continue
-				}
-				who := a.describe(put, a.sources(fa.X)[0]) + "<-" + descAll(foreign)
-				if unreachable(b) {
-					nUnreach++
-					c.CheckTrivial(uniq("put[prefix-branch]:shared-children:"+who), "unreachable-shape", true, s.Pos(), "allow-listed: inside the unreachable prefix branch")
-					continue
-				}
-				c.Check(uniq("put:shared-children:"+who), "cow-ownership", false, s.Pos(),
-					"a freshly allocated node receives the children slice of %s without copying it: both slice headers share one backing array, and an in-place insert on either side (append within capacity + shift) corrupts the other view", descAll(foreign))
-				// while the array is shared the fresh node must at least keep the foreign dye, otherwise this view would write into it in place
-				okTag := true
-				for _, src := range a.sources(fa.X) {
-					for _, ts := range a.fieldStores(put, src, a.tag) {
-						if a.sameNode(ts.Val, tag) {
-							okTag = false
-						}
-					}
-				}
-				c.Check(uniq("put:shared-subtree-keeps-old-dye:"+who), "cow-ownership", okTag, s.Pos(),
-					"a fresh node that shares a foreign children array must not carry the requested dye (it would be written in place by the next put of this view)")
-			}
-		}
-		c.CheckTrivial("count/put/prefix-branch-instances", "instance-count", nUnreach <= 2, put.Pos(), "allow-listed instances inside the unreachable prefix branch = %d, hand-confirmed at most 2 (removing the dead branch is fine, a new instance is not)", nUnreach)
-		c.Floor("put/children-assignments-to-fresh-nodes-examined", nKidStores, 12)
-
-		// Clone does not write through its receiver
-		cl := c.Fn(F("PatriciaNode.Clone"))
-		c.Check("Clone:read-only", "cow-ownership", len(a.writes(cl, nil)) == 0, cl.Pos(), "PatriciaNode.Clone must not write to the node it copies")
-
-		// the recursion and the public wrapper pass the requested dye on unchanged, and the wrapper installs the returned root
-		tagIdx := -1
-		for i, p := range put.Params {
-			if p == tag {
-				tagIdx = i
-			}
-		}
-		rec := core.CallsIn(put, putObj)
-		for i, ci := range rec {
-			args := ci.Common().Args
-			c.Check("put:recursion-passes-dye"+suffix(i, len(rec)), "value-flow", tagIdx < len(args) && a.sameNode(args[tagIdx], tag), ci.Pos(), "the recursive put must receive the same dye")
-		}
-		c.Floor("put/recursive-calls", len(rec), 1)
-		Put := c.Fn(F("PatriciaTrie.Put"))
-		root := c.FieldVar(F("PatriciaTrie"), "root")
-		pc := core.CallsIn(Put, putObj)
-		ok := len(pc) == 1
-		if ok {
-			args := pc[0].Common().Args
-			pt := a.tagParam(Put)
-			ok = pt != nil && tagIdx < len(args) && a.sameNode(args[tagIdx], pt)
-			if b, f, isLd := core.FieldLoad(args[1]); !isLd || f != root || b != Put.Params[0] {
+		return strings.Join(ds, "+")
+	}
+	nGuarded, nUnreach := 0, 0
+	for _, w := range a.writes(put, putObj) {
+		base := "put:" + w.Kind + "@" + descAll(w.Owners)
+		ok := !w.Unknown
+		for _, o := range w.Owners {
+			if !a.ownedAt(w.Instr.Block(), o, tag) {
 				ok = false
 			}
-			installed := false
-			for _, s := range storesToField(Put, Put.Params[0], root) {
-				if core.Derived(pc[0].Value())[s.Val] {
-					installed = true
+		}
+		switch {
+		case ok:
+			nGuarded++
+			c.Check(uniq(base), "cow-ownership", true, w.Instr.Pos(), "write (%s) to memory of %s is dominated by the equal edge of `%s.dye == dye`", w.Kind, descAll(w.Owners), descAll(w.Owners))
+		case unreachable(w.Instr.Block()):
+			nUnreach++
+			c.CheckTrivial(uniq("put[prefix-branch]:"+w.Kind+"@"+descAll(w.Owners)), "unreachable-shape", true, w.Instr.Pos(),
+				"allow-listed: only reachable when len(key) < len(child.key), impossible while all keys of one trie have the same length (see fixed-length-keys)")
+		case w.Unknown:
+			c.Undecided(uniq(base), "cow-ownership", w.Instr.Pos(), "the origin of the written slice cannot be determined")
+		default:
+			c.Check(uniq(base), "cow-ownership", false, w.Instr.Pos(), "write (%s) to memory of %s must be dominated by the equal edge of `%s.dye == dye`", w.Kind, descAll(w.Owners), descAll(w.Owners))
+		}
+	}
+	c.Floor("put/guarded-in-place-writes", nGuarded, 8)
+	nClones := 0
+	for _, ci := range core.AllCalls(put) {
+		if v := ci.Value(); v != nil && a.isFreshCall(v) {
+			nClones++
+		}
+	}
+	c.Floor("put/clone-sites", nClones, 9)
+
+	nKidStores := 0
+	// a fresh node must not take over the children array of a node it does not own: the non-COW insert (clause 3) and the
+	// owner's guarded in-place writes shift/append inside that array (append within capacity), which the sharer would observe
+	for _, b := range put.Blocks {
+		for _, in := range b.Instrs {
+			s, ok := in.(*ssa.Store)
+			if !ok {
+				continue
+			}
+			fa, ok := s.Addr.(*ssa.FieldAddr)
+			if !ok || core.FieldOf(fa) != a.kids || !a.isNodePtr(fa.X.Type()) || len(a.nonFresh(fa.X)) > 0 {
+				continue
+			}
+			nKidStores++
+			owners, unk := a.sliceOwners(s.Val)
+			var foreign []ssa.Value
+			for _, o := range owners {
+				if !a.ownedAt(b, o, tag) {
+					foreign = append(foreign, o)
 				}
 			}
-			ok = ok && installed
+			if len(foreign) == 0 && !unk {
+				continue
+			}
+			who := a.describe(put, a.sources(fa.X)[0]) + "<-" + descAll(foreign)
+			if unreachable(b) {
+				nUnreach++
+				c.CheckTrivial(uniq("put[prefix-branch]:shared-children:"+who), "unreachable-shape", true, s.Pos(), "allow-listed: inside the unreachable prefix branch")
+				continue
+			}
+			c.Check(uniq("put:shared-children:"+who), "cow-ownership", false, s.Pos(),
+				"a freshly allocated node receives the children slice of %s without copying it: both slice headers share one backing array, and an in-place insert on either side (append within capacity + shift) corrupts the other view", descAll(foreign))
+			// while the array is shared the fresh node must at least keep the foreign dye, otherwise this view would write into it in place
+			okTag := true
+			for _, src := range a.sources(fa.X) {
+				for _, ts := range a.fieldStores(put, src, a.tag) {
+					if a.sameNode(ts.Val, tag) {
+						okTag = false
+					}
+				}
+			}
+			c.Check(uniq("put:shared-subtree-keeps-old-dye:"+who), "cow-ownership", okTag, s.Pos(),
+				"a fresh node that shares a foreign children array must not carry the requested dye (it would be written in place by the next put of this view)")
 		}
-		c.Check("Put:root,dye→put→root", "value-flow", ok, Put.Pos(), "PatriciaTrie.Put starts at its own root with its dye and installs the root put returns")
+	}
+	c.CheckTrivial("count/put/prefix-branch-instances", "instance-count", nUnreach <= 2, put.Pos(), "allow-listed instances inside the unreachable prefix branch = %d, hand-confirmed at most 2 (removing the dead branch is fine, a new instance is not)", nUnreach)
+	c.Floor("put/children-assignments-to-fresh-nodes-examined", nKidStores, 12)
+
+	// Clone does not write through its receiver
+	cl := c.Fn(F("PatriciaNode.Clone"))
+	c.Check("Clone:read-only", "cow-ownership", len(a.writes(cl, nil)) == 0, cl.Pos(), "PatriciaNode.Clone must not write to the node it copies")
+
+	// the recursion and the public wrapper pass the requested dye on unchanged, and the wrapper installs the returned root
+	tagIdx := -1
+	for i, p := range put.Params {
+		if p == tag {
+			tagIdx = i
+		}
+	}
+	rec := core.CallsIn(put, putObj)
+	for i, ci := range rec {
+		args := ci.Common().Args
+		c.Check("put:recursion-passes-dye"+suffix(i, len(rec)), "value-flow", tagIdx < len(args) && a.sameNode(args[tagIdx], tag), ci.Pos(), "the recursive put must receive the same dye")
+	}
+	c.Floor("put/recursive-calls", len(rec), 1)
+	Put := c.Fn(F("PatriciaTrie.Put"))
+	root := c.FieldVar(F("PatriciaTrie"), "root")
+	pc := core.CallsIn(Put, putObj)
+	ok := len(pc) == 1
+	if ok {
+		args := pc[0].Common().Args
+		pt := a.tagParam(Put)
+		ok = pt != nil && tagIdx < len(args) && a.sameNode(args[tagIdx], pt)
+		if b, f, isLd := core.FieldLoad(args[1]); !isLd || f != root || b != Put.Params[0] {
+			ok = false
+		}
+		installed := false
+		for _, s := range storesToField(Put, Put.Params[0], root) {
+			if core.Derived(pc[0].Value())[s.Val] {
+				installed = true
+			}
+		}
+		ok = ok && installed
+	}
+	c.Check("Put:root,dye→put→root", "value-flow", ok, Put.Pos(), "PatriciaTrie.Put starts at its own root with its dye and installs the root put returns")
 }
